@@ -270,7 +270,92 @@ def findability(rec, F):
     rec.floor(R, "channel state-changing call sites", n, 3)
 
 
+def run_queue_fifo(rec, F):
+    R = rec.rule("F4.runq", "the run queue is a FIFO: fibers enter only by push_back and leave only by pop_front (a woken or launched fiber can never overtake forever, so every runnable fiber is eventually run)")
+    VM = "laythe_vm::vm::Vm"
+    n = 0
+    for fn, bi, kind, s in sem.field_access_sites(F, VM, "fiber_queue", write_only=True):
+        if kind != "refmut":
+            if fn.name == "new":
+                continue
+            rec.inst(R, "%s:assign" % fn.name, ok=False, loc=fn.loc)
+            rec.finding(R, "F4.runq/%s/assign" % fn.name, "Vm.fiber_queue is replaced wholesale in %s" % fn.name, loc=fn.loc, fn=fn.path)
+            continue
+        uses = sem.calls_using_local(fn, s["d"]["l"])
+        for b2, t, i in uses:
+            if i != 0:
+                continue
+            n += 1
+            nm = lastseg(t["f"])
+            ok = nm in ("push_back", "pop_front")
+            rec.inst(R, "%s:%s" % (fn.name, nm), ok=ok, loc=loc_of(t["sp"]))
+            if not ok:
+                rec.finding(R, "F4.runq/%s/%s" % (fn.name, nm), "%s mutates the run queue with %s: the queue is no longer first-in first-out (a runnable fiber can be overtaken indefinitely or dropped)" % (fn.name, nm), loc=loc_of(t["sp"]), fn=fn.path)
+    rec.floor(R, "run-queue mutations", n, 5)
+
+
+def closed_receivers_findable(rec, F):
+    R = rec.rule("F4.closed-wake", "ChannelQueue::runnable_waiter never answers from send_waiters alone when the queue may be closed: receivers parked on a closed channel must stay findable (they are owed nil)")
+    CQ = "laythe_core::object::channel::channel_queue::ChannelQueue"
+    fn = F.fn(CQ + "::runnable_waiter")
+    if fn is None:
+        rec.anchor_lost("F4.closed-wake", "ChannelQueue::runnable_waiter")
+        return
+    n = 0
+    clos = sem.closure_paths_in(fn)
+    for bi, t in fn.calls():
+        if lastseg(t["f"]) != "find_runnable_waiter":
+            continue
+        d = sem.desc_operand(fn, t["args"][0])
+        if not sem.desc_mentions_field(d, "send_waiters"):
+            continue
+        n += 1
+        gs = sem.dominating_guards(F, fn, bi)
+        not_closed = any(sem.desc_call_name(g) == "is_closed" and outc is False for w, g, outc in gs)
+        fallback = False
+        for b2, t2 in fn.calls():
+            if lastseg(t2["f"]) == "or_else" and op_local(t2["args"][0]) == t["dest"]["l"]:
+                for cp in sem.closure_args_of_call(fn, t2, clos):
+                    c = F.fn(cp)
+                    if c and any(lastseg(x["f"]) == "find_runnable_waiter" for _, x in c.calls()):
+                        fallback = True
+        ok = not_closed or fallback
+        rec.inst(R, "send_waiters search @%s" % loc_of(t["sp"]).rsplit(":", 1)[1], ok=ok, loc=loc_of(t["sp"]), note="not-closed guard: %s, falls back to receivers: %s" % (not_closed, fallback))
+        if not ok:
+            rec.finding(R, "F4.closed-wake/send-only", "runnable_waiter can answer from send_waiters alone while the queue may be closed: a receiver blocked on a closed (empty) channel is never resumed", loc=loc_of(t["sp"]), fn=fn.path)
+    rec.floor(R, "send_waiters searches", n, 3)
+
+
+def launch_transfers_callee_slot(rec, F):
+    R = rec.rule("F4.launch", "Fiber::split hands the new fiber everything the peeled frame addresses: the callee slot (slot 0 — `self` for a method) and the arguments are copied from the parent's stack, not re-synthesised")
+    sp = F.fn(FIBER + "::split")
+    if sp is None:
+        rec.anchor_lost("F4.launch", "Fiber::split")
+        return
+    cps = [(bi, t) for bi, t in sp.calls() if lastseg(t["f"]) in ("copy_nonoverlapping", "copy")]
+    if len(cps) != 1:
+        rec.anchor_lost("F4.launch", "the argument copy in Fiber::split (found %d)" % len(cps))
+        return
+    bi, t = cps[0]
+    src, cnt = str(sem.desc_operand(sp, t["args"][0])), str(sem.desc_operand(sp, t["args"][2]))
+    from_parent = "stack_start" in src
+    covers_slot0 = from_parent and "'add'" not in src.split("stack_start")[0] and ("AddWithOverflow" in cnt or "'Add'" in cnt)
+    slot0_written_from_parent = False
+    for b2, t2 in sp.calls():
+        if lastseg(t2["f"]) == "write" and "ptr" in t2["f"] and len(t2["args"]) == 2:
+            v = str(sem.desc_operand(sp, t2["args"][1]))
+            if "stack_start" in v and ("'read'" in v or "deref" in v or "copy" in v) and "'fun'" not in v:
+                slot0_written_from_parent = True
+    ok = from_parent and (covers_slot0 or slot0_written_from_parent)
+    rec.inst(R, "split: callee slot + arguments come from the parent stack", ok=ok, loc=sp.loc)
+    if not ok:
+        rec.finding(R, "F4.launch/callee-slot", "Fiber::split copies only the arguments (from slot 1) and writes the function object into the child's slot 0: for `launch obj.method(..)` the receiver that call_method stored in the callee slot is lost, and the method's `self` is the function", loc=loc_of(t["sp"]), fn=sp.path)
+
+
 def run(rec, F):
+    launch_transfers_callee_slot(rec, F)
+    run_queue_fifo(rec, F)
+    closed_receivers_findable(rec, F)
     deadlock_site(rec, F)
     park_switch(rec, F)
     wake_before_park(rec, F)
